@@ -107,6 +107,8 @@ func rprop_dense_with_gradient(evalGradient DenseGradientF, x0 DenseFloat64Vecto
     }
     // evaluate stop criterion
     if (Norm(gradient_new) < epsilon.Value) {
+      // x2 is the point that satisfies the criterion
+      copy(x1, x2)
       break;
     }
     // update step size
